@@ -438,6 +438,8 @@ RULES['C16'] = 'seeded values of every subject type packed with New / MarshalFro
 RULES['C17'] = 'Add/AddStd/Compare vs math/big nanosecond arithmetic: exhaustive grid over carry/borrow boundary values of nanos x sign combinations x range extremes, seeded random valid (t,d) pairs, an overflow class with arbitrary int64 seconds; Compare on all pairs of a pool incl. equal and adjacent instants + transitivity triples; non-trivial = non-zero duration / distinct pool elements'
 RULES['C18'] = 'rapidproto.MessageGenerator draws (rapid Example with seeded seeds) for every subject type and a dynamicpb twin under the 16 combinations of NoEmptyLists / DisallowNilMessages / a string field mapper / Any type URLs; every drawn message is walked by reflection (UTF-8, Timestamp/Duration validity, Any resolvable+decodable, FieldMask paths, declared enum numbers, option obligations) and round-tripped through the reference codec; distinct by type+options+seed'
 
+RULES['C08'] = 'operation histories (30-60 steps, seeded) over Has/Get/Set/Clear/Mutable/NewField/WhichOneof/Range/GetUnknown/SetUnknown/IsValid and every List and Map method, with retained view handles (lists, maps, nested messages, detached NewField values, read-only empty views) driven in lock-step on fast reflection, protobuf-go table-driven reflection over a second struct of the same type, and dynamicpb; after every step return values, validity flags, panics and the full message state (Go struct read with package reflect vs dynamicpb state, and the generated Range view vs its own struct) are compared; a third of the histories start from a populated message; non-trivial = history has >=1 step; distinct by type + operation sequence'
+
 ASSUME = [
     'google.golang.org/protobuf v1.34.0 dynamicpb + proto (reflection codec) is the reference; it and the harness spec codec must agree before a case is decided',
     'the plain-Go-reflection struct reader (struct tags -> field numbers) reads generated structs correctly',
@@ -445,7 +447,7 @@ ASSUME = [
 ]
 
 
-FLOORS = {'C15': (1000000, 100000), 'C16': (500, 200), 'C17': (10000, 5000), 'C18': (300, 200), 'C07': (500, 200), 'C01': (500, 200), 'C02': (500, 200), 'C04': (500, 200), 'C05': (100, 30), 'C03': (500, 200), 'C14': (500, 100)}
+FLOORS = {'C08': (500, 300), 'C15': (1000000, 100000), 'C16': (500, 200), 'C17': (10000, 5000), 'C18': (300, 200), 'C07': (500, 200), 'C01': (500, 200), 'C02': (500, 200), 'C04': (500, 200), 'C05': (100, 30), 'C03': (500, 200), 'C14': (500, 100)}
 
 
 def check_engine(prop, tier, seed, repo, keep):
@@ -622,7 +624,7 @@ CHECKS = {
     'C01': check_engine, 'C02': check_engine, 'C04': check_engine, 'C05': check_engine,
     'C03': check_engine, 'C14': check_engine,
     'C06': check_total, 'C07': check_engine,
-    'C15': check_engine, 'C16': check_engine, 'C17': check_engine, 'C18': check_isolated_engine,
+    'C08': check_engine, 'C15': check_engine, 'C16': check_engine, 'C17': check_engine, 'C18': check_isolated_engine,
 }
 
 
